@@ -195,6 +195,12 @@ class SimQueue(object):
 
     def close(self):
         sim = self._sim
+        # buggify: every reader's receive timeout expires just as the producer closes the queue
+        if sim.faults_stopped_at is None and sim.draw(2, p0=0.5, kind="close_storm") == 1:
+            pollers = [t for t in sim.tasks if t.state == "blocked" and t.deadline is not None
+                       and (t.waiting_op or "").startswith("q%d.get" % self.qid)]
+            if pollers:
+                sim.request_storm(pollers)
         sim.yield_point(self._lbl("close"))
         st = self._st()
         st.closed = True
